@@ -71,6 +71,11 @@ var c20Injs = []c20Inj{
 	{name: "continue-not-last-before-break", lines: []string{"continue", "break"}, multi: true},
 	{name: "continue-not-last-before-end", lines: []string{"continue", "end"}, multi: true},
 	{name: "continue-not-last-before-label-in-if", lines: []string{"if (flag(Q)) {", "continue", "AfterL:", "}"}, errLine: 1},
+	// a continue that is last in a poryswitch case but not last in the enclosing block (after selection it is an ordinary misplaced continue)
+	{name: "continue-last-in-poryswitch-case-not-last-in-block", lines: []string{"poryswitch(PV) {", "SEL {", "continue", "}", "_ { o }", "}", "after"}, errLine: 2, multi: true},
+	{name: "continue-last-in-poryswitch-default-case-not-last-in-block", lines: []string{"poryswitch(PV) {", "NOPE { o }", "_ {", "q", "continue", "}", "}", "AfterL:", "after"}, errLine: 4, multi: true},
+	{name: "continue-last-in-nested-poryswitch-case-not-last-in-block", lines: []string{"poryswitch(PV) {", "SEL {", "poryswitch(PV) {", "SEL {", "continue", "}", "}", "}", "}", "after"}, errLine: 4, multi: true},
+	{name: "continue-last-in-if-in-poryswitch-case-is-legal-shape", lines: []string{"poryswitch(PV) {", "SEL {", "continue", "after", "}", "}"}, errLine: 2, multi: true},
 	{name: "duplicate-case", lines: []string{"switch (var(Q)) {", "case 1:", "q", "case 2:", "case 1:", "r", "}"}, errLine: 4},
 	{name: "duplicate-case-adjacent", lines: []string{"switch (var(Q)) {", "case 3:", "case 3:", "r", "}"}, errLine: 2},
 	{name: "duplicate-case-via-const", lines: []string{"switch (var(Q)) {", "case 1:", "q", "case CONE:", "r", "}"}, errLine: 3},
